@@ -33,7 +33,7 @@ ROUTES = ["direct", "proxy"]
 
 
 def bounds(tier):
-    return "4 cert_reqs x 3 check_hostname x 7 trust sources x 3 server_hostname x 4 server certificates x 2 routes (wss) + ws controls" + (
+    return "4 cert_reqs x 3 check_hostname x 7 trust sources x 3 server_hostname x 4 server certificates x 2 routes (wss) + 3 ssl_version values x reduced grid + ws controls" + (
         " (quick: proxy route for a third of the grid)" if tier == "quick" else "")
 
 
@@ -145,7 +145,10 @@ def server_thread(srv, cert, proxy, out):
             pass
 
 
-def run_case(scheme, cert_reqs, check_hostname, trust, server_hostname, server_cert, route):
+SSL_VERSIONS = {"absent": None, "TLS_CLIENT": ssl.PROTOCOL_TLS_CLIENT, "TLS": ssl.PROTOCOL_TLS, "TLSv1_2": ssl.PROTOCOL_TLSv1_2}
+
+
+def run_case(scheme, cert_reqs, check_hostname, trust, server_hostname, server_cert, route, ssl_version="absent"):
     lib.reset_globals()
     cli, srv = socket.socketpair()
     cli.close()
@@ -180,6 +183,10 @@ def run_case(scheme, cert_reqs, check_hostname, trust, server_hostname, server_c
         sslopt["context"] = ctx
     if server_hostname != "absent":
         sslopt["server_hostname"] = server_hostname
+    if ssl_version != "absent":
+        import warnings
+        warnings.simplefilter("ignore", DeprecationWarning)
+        sslopt["ssl_version"] = SSL_VERSIONS[ssl_version]
     old_env = os.environ.pop("WEBSOCKET_CLIENT_CA_BUNDLE", None)
     if envv:
         os.environ["WEBSOCKET_CLIENT_CA_BUNDLE"] = envv
@@ -214,8 +221,8 @@ def run_case(scheme, cert_reqs, check_hostname, trust, server_hostname, server_c
         except Exception:
             pass
     th.join(15)
-    label = "%s cert_reqs=%s check_hostname=%s trust=%s server_hostname=%s server_cert=%s route=%s" % (
-        scheme, cert_reqs if cert_reqs == "absent" else ssl.VerifyMode(cert_reqs).name, check_hostname, trust, server_hostname, server_cert, route)
+    label = "%s cert_reqs=%s check_hostname=%s trust=%s server_hostname=%s server_cert=%s route=%s ssl_version=%s" % (
+        scheme, cert_reqs if cert_reqs == "absent" else ssl.VerifyMode(cert_reqs).name, check_hostname, trust, server_hostname, server_cert, route, ssl_version)
     if th.is_alive():
         return ({"kind": "server-thread-stuck"}, "%s: server thread did not finish" % label)
     sig = {"kind": "tls", "trust": trust if trust.startswith("context") else "options"}
@@ -298,6 +305,11 @@ def run_task(desc):
             if route == "proxy" and desc.get("tier") == "quick" and k % 3:
                 continue
             run("wss", cr, chk, trust, sh, sc, route)
+        # the documented ssl_version option must not change what is verified
+        if not trust.startswith("context"):
+            for sv in ("TLS_CLIENT", "TLS", "TLSv1_2"):
+                for chk, sh, sc in itertools.product(CHECK_HOST, SERVER_HOSTNAME[:2], SERVER_CERT):
+                    run("wss", cr, chk, trust, sh, sc, "direct", sv)
         if desc["cert_reqs"] == 0:
             res["samples"].append({"scheme": "wss", "trust": trust, "cert_reqs": str(cr), "configurations": n})
     res["execs"] = res["complete"] = res["distinct"] = n
